@@ -1,5 +1,6 @@
 pub mod checker;
 pub mod crash;
+pub mod flagwatch;
 pub mod gsom;
 pub mod lkh;
 pub mod pop;
